@@ -20,7 +20,7 @@ UNITS['prx3'] = dict(SER, cxxflags=['-D__TBB_BUILD=1', '-DVP_PROXY=1'], threads=
 UNITS['arena2'] = dict(wrapper='w_arena.cpp', mode='lcs', unroll=1, exceptions=True, prune=True, cut=['timed_spin_wait_until'], pure=['get_waiting_threads_monitor'], cxxflags=['-D__TBB_BUILD=1', '-mrtm', '-mwaitpkg'],
                        threads={'vp_thr_spawner': ['a'], 'vp_thr_idle': ['b']})
 EXEC = dict(wrapper='w_exec.cpp', mode='lcs', unroll=1, exceptions=True, prune=True, devirt=['sleep_node', 'vp_delegate'], cut=['timed_spin_wait_until', 'enqueue_task'], pure=['pthread_getspecific'], ptrhooks=True,
-            noinline=['concurrent_monitor_baseImE12prepare_wait', 'concurrent_monitor_baseImE11cancel_wait', 'concurrent_monitor_baseImE18notify_one_relaxed'],
+            noinline=['concurrent_monitor_baseImE12prepare_wait', 'concurrent_monitor_baseImE11cancel_wait', 'concurrent_monitor_baseImE18notify_one_relaxed', 'concurrent_monitor_baseImE14notify_relaxed'],
             cxxflags=['-D__TBB_BUILD=1', '-mrtm', '-mwaitpkg'],
             # destructors that stay out-of-line only on the exceptional clean-up paths (landing pads) of task_arena_impl::execute; no stub throws, so those
             # paths are dead; every normal-path call of them is inlined (checked in the IR)
@@ -28,7 +28,8 @@ EXEC = dict(wrapper='w_exec.cpp', mode='lcs', unroll=1, exceptions=True, prune=T
                           '_ZN3tbb6detail2r114delegated_taskD2Ev', '_ZN3tbb6detail2r120nested_arena_contextD2Ev', '__clang_call_terminate',
                           # monitor operations kept out of line (see `noinline`): one atomic step each in this harness; their internals are monitor_*'s job
                           '_ZN3tbb6detail2r123concurrent_monitor_baseImE11cancel_waitERNS1_9wait_nodeImEE', '_ZN3tbb6detail2r123concurrent_monitor_baseImE12prepare_waitERNS1_9wait_nodeImEE',
-                          '_ZN3tbb6detail2r123concurrent_monitor_baseImE18notify_one_relaxedEv'])
+                          '_ZN3tbb6detail2r123concurrent_monitor_baseImE18notify_one_relaxedEv',
+                          '_ZN3tbb6detail2r123concurrent_monitor_baseImE14notify_relaxedIZNS1_14delegated_task8finalizeEvEUlmE_EEvRKT_'])
 CUTNEST = ['timed_spin_wait_until', 'enqueue_task', 'nested_arena_contextC2E', 'nested_arena_contextD2Ev']
 UNITS['exec_e'] = dict(EXEC, cut=CUTNEST, threads={'vp_thr_entrant': ['a'], 'vp_thr_leaver2': ['b']})
 UNITS['exec_ew'] = dict(EXEC, cut=CUTNEST, threads={'vp_thr_entrant': ['a'], 'vp_thr_worker': ['b']})
@@ -113,7 +114,20 @@ HARNESSES = [
     desc='arena pool-state flag', bounds={'threads': 2}),
 ]
 EXC = dict(cbmc=['--unwind', '4', '--object-bits', '12'], timeout=1800)
-HARNESSES.append(H(name='execute_slot_wait', unit='exec_e', harness='h_exec.c', defines={'SIDE': 1, 'ROUNDS': 2, 'EXTRA_E': 1}, scenarios=[{'LSLOT': 0}], desc='E side', bounds={'threads': 2}, **EXC))
+HARNESSES.append(H(name='execute_slot_wait', unit='exec_e', harness='h_exec.c', defines={'SIDE': 1, 'ROUNDS': 2, 'EXTRA_E': 1},
+    scenarios=[{'LSLOT': 0}], scenarios_thorough=[{'LSLOT': 0}, {'LSLOT': 1}],
+    desc='task_arena::execute waiting for a free slot, entrant side: REAL task_arena_impl::execute (delegated_task, loop prepare_wait -> work done? -> occupy_free_slot '
+         '-> commit_wait on my_exit_monitors; enqueue_task and the nested_arena_context ctor/dtor cut) vs a leaving occupant doing the two real calls of '
+         '~nested_arena_context: my_slots[LSLOT].release(); my_exit_monitors.notify_one(). prepare_wait/cancel_wait/notify_one_relaxed are one atomic step each',
+    bounds={'threads': 2, 'free_rounds': 2, 'forced_rounds': 2, 'unroll': 1, 'entrant_extra_slices_per_round': 1}, **EXC))
+HARNESSES.append(H(name='execute_slot_wait_worker', unit='exec_ew', harness='h_exec.c', defines={'SIDE': 2, 'ROUNDS': 2, 'EXTRA_E': 1, 'LSLOT': 0}, scenarios=[{}], tiers=['thorough'],
+    desc='entrant side (REAL task_arena_impl::execute), no slot ever frees up: a worker runs the REAL delegated_task::execute -> finalize (wait_context release, then '
+         'my_exit_monitors.notify(ctx == &delegate)) and must wake the entrant', bounds={'threads': 2, 'free_rounds': 2, 'forced_rounds': 2, 'unroll': 1}, **EXC))
+HARNESSES.append(H(name='execute_slot_leave', unit='exec_l', harness='h_exec.c', defines={'SIDE': 3, 'ROUNDS': 2, 'EXTRA_E': 1},
+    scenarios=[{'LSLOT': 0}], scenarios_thorough=[{'LSLOT': 0}, {'LSLOT': 1}],
+    desc='task_arena::execute, leaving side: REAL ~nested_arena_context() (built by the real occupy_free_slot + constructor): request_workers, leave_task_dispatcher, '
+         'my_arena_slot->release(), my_exit_monitors.notify_one(), re-attach to the home arena, vs a minimal entrant with the same hand-shake '
+         '(prepare_wait -> real occupy_free_slot -> commit_wait | cancel_wait)', bounds={'threads': 2, 'free_rounds': 2, 'forced_rounds': 2, 'unroll': 1}, **EXC))
 # development aid (mutation testing of one expensive scenario): VP_C02_SCEN="OP0=0,OP1=4" keeps only the scenarios containing these pairs
 import os as _os
 if _os.environ.get('VP_C02_SCEN'):
